@@ -757,6 +757,42 @@ fn c18(tier: Tier, seed: u64, case: u64) -> CaseReport {
     let mut rep = CaseReport::new(case);
     let mut rng = Rng::for_case(seed, "c18", case);
     let last = tier.pick(1500, 40000) - 1;
+    if case + 4 == last || case + 3 == last {
+        // pinned reproducers at the LSP boundary (open findings): document symbols of a note with two top-level sections;
+        // the empty query on a library whose most referenced note starts with a paragraph
+        use crate::lsp::{Outcome, Server};
+        rep.count("events", 1);
+        rep.count("pinned_reproducers", 1);
+        crate::lsp::reset_log();
+        if case + 4 == last {
+            let lib: BTreeMap<String, String> = [("a".to_string(), "# A\n\n## A1\n\n# B\n\n## B1\n".to_string())].into_iter().collect();
+            let mut s = Server::start_mem(&lib, "");
+            let uri = s.uri("a");
+            if let Outcome::Result(v) = s.request("textDocument/documentSymbol", json!({"textDocument": {"uri": uri}})) {
+                let names: Vec<String> = v.as_array().cloned().unwrap_or_default().iter().map(|x| norm(x["name"].as_str().unwrap_or(""))).collect();
+                if !names.iter().any(|n| n.ends_with("B1")) {
+                    rep.violate("heading-missing-from-document-symbols", "pinned:document-symbols-second-section", format!("note `# A / ## A1 / # B / ## B1`: document symbols {:?} do not list B1", names), json!({"library": lib}));
+                }
+            }
+            let _ = s.shutdown();
+        } else {
+            let mut lib: BTreeMap<String, String> = BTreeMap::new();
+            lib.insert("popular".into(), "An introduction before the title.\n\n# Popular\n".into());
+            lib.insert("other".into(), "# Other\n".into());
+            for i in 1..=3 {
+                lib.insert(format!("x{}", i), format!("# X{}\n\nsee [p](popular){}\n", i, if i == 1 { " and [o](other)" } else { "" }));
+            }
+            let mut s = Server::start_mem(&lib, "");
+            if let Outcome::Result(v) = s.request("workspace/symbol", json!({"query": ""})) {
+                let names: Vec<String> = v.as_array().cloned().unwrap_or_default().iter().map(|x| norm(x["name"].as_str().unwrap_or(""))).collect();
+                if names.first().map(|n| n.as_str()) != Some("Popular") {
+                    rep.violate("most-referenced-note-not-first", "pinned:rank-title-after-intro", format!("three notes link to `popular`, one to `other`; the empty query lists {:?}", names), json!({"library": lib}));
+                }
+            }
+            let _ = s.shutdown();
+        }
+        return rep;
+    }
     if case + 2 >= last {
         // pinned reproducers: a note that block-references itself / two notes referencing each other /
         // a note included only from above the first heading of an unreferenced note
